@@ -5,6 +5,7 @@ import (
 	"encoding/json"
 	"fmt"
 	"log/slog"
+	"sync/atomic"
 
 	"verif/internal/ev"
 	"verif/ref"
@@ -115,7 +116,7 @@ func c01GetMessage(b []byte) string {
 // C01: only complete CRC-valid frames are typed.
 func C01(r *ev.Run) {
 	thorough := r.Tier == "thorough"
-	r.Rule = "S1: all strings up to length 6 (quick) / 8 (thorough) over alphabets {D3,00,01,02,p,c1,c2,c3} built from a valid 7-byte frame (three choices of p) and, thorough, a 9-symbol alphabet from an MSM-typed 8-byte frame; S2: all sequences of <=3 (quick) / <=4 (thorough, reduced menu for length 4) segments from a 27-entry menu; S3: single frames of every payload length (12 boundary lengths quick) and every type, with every single-bit flip, adjacent 2-bit burst, byte overwrite {00,FF,D3}, truncation and length-field edit, as stream and through GetMessage. Non-trivial = stream contains at least one 0xD3; distinct = distinct streams (hashed)"
+	r.Rule = "S1: all strings up to length 6 (quick) / 8 (thorough) over alphabets {D3,00,01,02,p,c1,c2,c3} built from a valid 7-byte frame (three choices of p) and, thorough, a 9-symbol alphabet from an MSM-typed 8-byte frame; S2: all sequences of <=3 (quick) / <=4 (thorough, reduced menu for length 4) segments from a 27-entry menu; S3: single frames of every payload length (12 boundary lengths quick) and every type, with every single-bit flip, adjacent 2-bit burst, byte overwrite {00,FF,D3}, truncation and length-field edit, as stream and through GetMessage; S4: every value of the two bytes after 0xD3 (65536) followed by as many bytes as its 10-, 11-, ... 16-bit reading says (up to 1100 quick / 4200 thorough) and a CRC over the whole. Non-trivial = stream contains at least one 0xD3; distinct = distinct streams (hashed)"
 	r.Assumptions = []string{"ref.IsFrame and the bitwise CRC-24Q in /verif/ref are the definition of 'exactly one RTCM3 frame'", "GetMessage clause: typed && err==nil implies the returned raw bytes are exactly one frame and are the leading bytes of the input (trailing input bytes are allowed, as the repository's TestGetMessage requires)"}
 	streamFail := func(kind string, s []byte, out []delivered) {
 		r.Violate(ev.Violation{Fingerprint: "C01 " + kind, What: kind,
@@ -326,6 +327,38 @@ func C01(r *ev.Run) {
 		r.Count(6, 6, 12, 6)
 		r.DistinctN += 6
 	})
+	// S4: every value of the two bytes after 0xD3, followed by as many bytes as each
+	// wider-than-10-bit reading of those bytes gives and a CRC over all of it: only
+	// 'six zero bits + 10-bit length' may ever be taken as a frame
+	maxN := 1100
+	if thorough {
+		maxN = 4200
+	}
+	parallelFor(256, func(hi int) {
+		var n int64
+		body := make([]byte, maxN)
+		for i := range body {
+			body[i] = validTimestampFill(i)
+		}
+		body[0], body[1] = 0x3E, 0xD0 // type 1005
+		for lo := 0; lo < 256; lo++ {
+			v := hi<<8 | lo
+			seen := map[int]bool{}
+			for w := 10; w <= 16; w++ {
+				N := v & (1<<uint(w) - 1)
+				if N == 0 || N > maxN || seen[N] {
+					continue
+				}
+				seen[N] = true
+				m := append([]byte{0xD3, byte(hi), byte(lo)}, body[:N]...)
+				both(ref.WithCRC(m))
+				n++
+			}
+		}
+		r.Count(n, n, 2*n, n)
+		atomic.AddInt64(&r.DistinctN, n)
+	})
+	r.Sample(map[string]interface{}{"enumeration": "S4", "leader": "d30400", "body_bytes": 1024, "note": "reserved bit set, 10-bit length 0, 11-bit reading 1024"})
 	r.Sample(map[string]interface{}{"enumeration": "S3", "base_frame": ev.Hex(ref.TypedFrame(1077, 4, validTimestampFill)), "mutations": "bit flips, bursts, overwrites, truncations, length edits"})
 	r.Extra["S3_payload_lengths"] = len(lengths)
 	_ = s1
